@@ -26,6 +26,16 @@ def r1(ctx):
     vs = one(b.calls(r"SigV4Authenticator::validate_signature$"), "validate_signature call in entry point")
     od = b.origin_def(vs[1]["args"][4])
     ctx.count()
+    if od and od[0] == "const" and od[1].get("def"):
+        # a named `const X: Duration = Duration::minutes(15)`: the constructor call sits in the constant's own body
+        try:
+            cb_ = ctx.facts.body(od[1]["def"])
+            cc = one(cb_.calls(r"chrono::TimeDelta::(try_)?(weeks|days|hours|minutes|seconds|milliseconds)$"), "duration constructor in " + od[1]["def"])
+            if not [x for x in cb_.all_calls() if x[1] is not cc[1]] or len(cb_.all_calls()) == 1:
+                b = cb_
+                od = ("def", {"kind": "call", "term": cc[1], "block": cc[0]})
+        except AnchorMissing:
+            pass
     if not (od and od[0] == "def" and od[1]["kind"] == "call"):
         yield MISSING("C04-R1", "entry/allowed-mismatch-shape", "allowed_mismatch argument is not the direct result of a duration constructor (configurable/computed window: review needed)", where=b.span_of_block(vs[0]))
         return
